@@ -341,6 +341,7 @@ func registerRuntime() {
 		}
 		// fresh bits variable constrained to denote t
 		b := i.ctx.Var(fmt.Sprintf("$fbits%d", t.ID), i64s)
+		i.ex.vars = append(i.ex.vars, b)
 		i.ex.pc = append(i.ex.pc, i.ctx.Or(i.ctx.FCmp(smt.OpFEq, i.ctx.FFromBits(b), t), i.ctx.And(i.ctx.FIsNaN(t), i.ctx.FIsNaN(i.ctx.FFromBits(b)))))
 		i.ex.model = nil
 		return b
